@@ -168,7 +168,7 @@ Print Assumptions order_false_fields.
 Theorem order_key_fields : forall n cmp eq order a k,
   make_attribute n cmp eq order = Ok a ->
   (f_order_key a = Some k <->
-   (cmp = SK k \/ (cmp = SN /\ (order = SK k \/ (order = SN /\ eq = SK k))))).
+   (is_key cmp k \/ (cmp = SN /\ (is_key order k \/ (order = SN /\ is_key eq k))))).
 Proof. exact field_order_key_iff. Qed.
 Print Assumptions order_key_fields.
 
